@@ -283,6 +283,8 @@ pub enum IoOp {
     StreamPosition,
     /// Seek::seek_relative: like any seek, sets the position to the offset the stream stands at afterwards
     SeekRelative(i32),
+    /// Seek::rewind(): back to offset 0, and so is the bar
+    Rewind,
     Write(u16),
     WriteVectored(Vec<u16>),
     WriteAll(u16),
@@ -431,6 +433,16 @@ fn run_io(c: &IoCase) -> CaseResult {
                     v.label("seek");
                 }
             }
+            IoOp::Rewind => {
+                let (r1, r2) = (wrapped.rewind(), plain.rewind());
+                same!(r1, r2);
+                if r1.is_ok() {
+                    v.label_if(e.pos != 0, "rewind_from_a_non_zero_offset");
+                    e.pos = w_obj.st().pos as u64;
+                    e.slack = 0;
+                    v.label("seek");
+                }
+            }
             IoOp::StreamPosition => {
                 let (r1, r2) = (wrapped.stream_position(), plain.stream_position());
                 same!(r1, r2);
@@ -513,6 +525,7 @@ fn io_strategy(tier: Tier) -> BoxedStrategy<IoCase> {
         1 => any::<i32>().prop_map(IoOp::SeekEnd),
         1 => Just(IoOp::StreamPosition),
         1 => any::<i32>().prop_map(IoOp::SeekRelative),
+        1 => Just(IoOp::Rewind),
         3 => (0u16..80).prop_map(IoOp::Write),
         2 => lens().prop_map(IoOp::WriteVectored),
         2 => (0u16..80).prop_map(IoOp::WriteAll),
@@ -561,6 +574,11 @@ pub struct IterCase {
     /// only reached that way): 1 count, 2 for_each, 3 sum, 4 last, 5 fold, 6 max, 7 rev().count()
     #[serde(default)]
     consume: u8,
+    /// instead of all the above: the adaptor wraps a source that is not fused (this script: true = an item,
+    /// false = None) and is itself wrapped in `.fuse()`; polled once more than the script is long, it must
+    /// yield exactly what `source.fuse()` yields, and the bar counts those items
+    #[serde(default)]
+    unfused: Option<Vec<bool>>,
 }
 
 fn finish_of(k: u8) -> ProgressFinish {
@@ -573,7 +591,42 @@ fn finish_of(k: u8) -> ProgressFinish {
     }
 }
 
+struct Scripted(std::collections::VecDeque<bool>, u32);
+impl Iterator for Scripted {
+    type Item = u32;
+    fn next(&mut self) -> Option<u32> {
+        match self.0.pop_front() {
+            Some(true) => {
+                self.1 += 1;
+                Some(self.1)
+            }
+            _ => None,
+        }
+    }
+}
+
+fn run_unfused(c: &IterCase, script: &[bool]) -> CaseResult {
+    let pb = hidden_bar(None).with_finish(ProgressFinish::Abandon);
+    let mut wrapped = Scripted(script.iter().copied().collect(), 0).progress_with(pb.clone()).fuse();
+    let mut plain = Scripted(script.iter().copied().collect(), 0).fuse();
+    let mut yielded = 0u64;
+    for k in 0..=script.len() {
+        let (a, b) = (wrapped.next(), plain.next());
+        ensure!(a == b, "transparency", "poll #{k} of progress_with(..).fuse() over the unfused source {script:?}: wrapped yielded {a:?}, source.fuse() {b:?}");
+        yielded += u64::from(a.is_some());
+    }
+    ensure!(pb.position() == yielded, "count", "fuse() over the unfused source {script:?}: position() = {}, {yielded} items were yielded", pb.position());
+    let _ = c;
+    let mut v = Verdict::default();
+    v.nontrivial = script.iter().position(|x| !x).map_or(false, |i| script[i..].iter().any(|x| *x));
+    v.label_if(v.nontrivial, "unfused_source_yields_again_after_none");
+    Ok(v)
+}
+
 fn run_iter(c: &IterCase) -> CaseResult {
+    if let Some(script) = &c.unfused {
+        return run_unfused(c, script);
+    }
     let items: Vec<u32> = (0..c.n as u32).map(|x| x * 3 + 1).collect();
     let mut plain = items.clone().into_iter();
     let mk = |l: Option<u16>| hidden_bar(l.map(|x| x as u64)).with_message("start");
@@ -739,7 +792,7 @@ fn decode_iter(u: &mut FuzzInput) -> IterCase {
         });
     }
     let consume = (ops.len() as u8 * 5 + n as u8) % 8;
-    IterCase { n, wrap, finish, ops, drain, consume }
+    IterCase { n, wrap, finish, ops, drain, consume, unfused: None }
 }
 
 fn iter_strategy(_t: Tier) -> BoxedStrategy<IterCase> {
@@ -752,7 +805,8 @@ fn iter_strategy(_t: Tier) -> BoxedStrategy<IterCase> {
     ];
     let op = prop_oneof![8 => Just(ItOp::Next), 4 => Just(ItOp::NextBack), 2 => Just(ItOp::Len), 2 => (0u8..6).prop_map(ItOp::Nth), 1 => (0u8..5).prop_map(ItOp::Rest), 1 => Just(ItOp::ResetBar)];
     (0u16..30, wrap, 0u8..5, proptest::collection::vec(op, 0..40), any::<bool>(), prop_oneof![2 => Just(0u8), 3 => 1u8..8])
-        .prop_map(|(n, wrap, finish, ops, drain, consume)| IterCase { n, wrap, finish, ops, drain, consume })
+        .prop_map(|(n, wrap, finish, ops, drain, consume)| IterCase { n, wrap, finish, ops, drain, consume, unfused: None })
+        .prop_flat_map(|c| prop_oneof![12 => Just(None), 1 => proptest::collection::vec(any::<bool>(), 1..8).prop_map(Some)].prop_map(move |unfused| IterCase { unfused, ..c.clone() }))
         .boxed()
 }
 
@@ -1181,23 +1235,23 @@ pub fn property() -> Property {
         parts: vec![
             Box::new(Gen::<IoCase> {
                 name: "io",
-                rule: "scripted source/sink (every primitive call result generated: full, short, zero, 5 error kinds) driven by 0-14 (thorough 30) calls of read/read_vectored/read_exact/read_to_string/read_line/fill_buf/seek_relative/consume/seek(Start|Current|End)/stream_position/write/write_vectored/write_all/write!/flush; wrapped vs unwrapped twin must return the same values, errors and data, position() must follow the transferred bytes; non-trivial = a short transfer, an error, a partial consume or a write_all failing mid-way",
+                rule: "scripted source/sink (every primitive call result generated: full, short, zero, 5 error kinds) driven by 0-14 (thorough 30) calls of read/read_vectored/read_exact/read_to_string/read_line/fill_buf/seek_relative/rewind/consume/seek(Start|Current|End)/stream_position/write/write_vectored/write_all/write!/flush; wrapped vs unwrapped twin must return the same values, errors and data, position() must follow the transferred bytes; non-trivial = a short transfer, an error, a partial consume or a write_all failing mid-way",
                 strategy: io_strategy,
                 cases: |t| t.pick(6_000, 300_000),
                 run: run_io,
                 signature: no_signature,
-                essential: &["short_transfer", "error", "partial_consume", "write_all_failed_midway", "seek", "vectored", "fill_buf", "read_into_non_empty_string", "relative_seek_while_out_of_step"],
+                essential: &["short_transfer", "error", "partial_consume", "write_all_failed_midway", "seek", "vectored", "fill_buf", "read_into_non_empty_string", "relative_seek_while_out_of_step", "rewind_from_a_non_zero_offset"],
                 workers: w,
                 decode: None,
             }),
             Box::new(Gen::<IterCase> {
                 name: "iter",
-                rule: "0..30 items through progress/progress_count/progress_with/try_progress/wrap_iter with each ProgressFinish, interleaved next/next_back/nth/len/internal iteration through by_ref()/reset() of the bar through another handle (the next end finishes it again the same way), optional drain, optionally consumed by value; items, len and size_hint equal the plain iterator, position == items yielded, exhaustion finishes per finish behaviour",
+                rule: "0..30 items through progress/progress_count/progress_with/try_progress/wrap_iter with each ProgressFinish, interleaved next/next_back/nth/len/internal iteration through by_ref()/reset() of the bar through another handle (the next end finishes it again the same way), optional drain, optionally consumed by value; one case in thirteen wraps a source that is not fused and puts .fuse() on the adaptor; items, len and size_hint equal the plain iterator, position == items yielded, exhaustion finishes per finish behaviour",
                 strategy: iter_strategy,
                 cases: |t| t.pick(4_000, 200_000),
                 run: run_iter,
                 signature: no_signature,
-                essential: &["exhausted", "partial_consumption", "next_back", "length_differs_from_items", "nth", "internal_iteration", "adaptor_consumed_by_value", "reset_after_exhaustion"],
+                essential: &["exhausted", "partial_consumption", "next_back", "length_differs_from_items", "nth", "internal_iteration", "adaptor_consumed_by_value", "reset_after_exhaustion", "unfused_source_yields_again_after_none"],
                 workers: w,
                 decode: Some(decode_iter),
             }),
